@@ -45,7 +45,7 @@ def analyze_code(code: str, min_methods: int = 2) -> list[ClassInfo]:
     """
     try:
         tree = ast.parse(code)
-    except SyntaxError:
+    except (SyntaxError, RecursionError, MemoryError):
         return []
 
     return _find_stateless_classes(tree, min_methods)
